@@ -293,7 +293,13 @@ def gen_C11(rnd, n, tier):
                 return (x[0], retext(x[1]), retext(x[2]))
             c = retext(c)
         form = rnd.choice(["if", "while", "do", "switch", "elifsame"])
-        if form == "elifsame":
+        if i % 7 == 3:
+            # an `if` whose first body is only another `if`, followed by an `elif` with the AutoVar condition and no
+            # `else` (a compiler that folds nested ifs must keep the elif for the case "outer holds, inner fails")
+            form = "nestelif"
+            fo = ("leaf", ("flag", "FLAG_OUT", "")); fi = ("leaf", ("flag", "FLAG_IN", "")) if i % 2 else c
+            body = [("if", [(fo, [("if", [(fi, [("cmd", "yes", "yes")])], None)]), (c, [("cmd", "maybe", "maybe")])], None), ("cmd", "after", "after")]
+        elif form == "elifsame":
             k = rnd.randint(2, 4); cmdsrc, cmdasm = "random(%d)" % k, "random %d" % k
             a1 = ("leaf", ("auto", cmdsrc, cmdasm, "VAR_RESULT", "op", "==", 0)); a2 = ("leaf", ("auto", cmdsrc, cmdasm, "VAR_RESULT", "op", rnd.choice(["==", "!=", ">"]), 1))
             c = ("and", a1, a2)
